@@ -75,7 +75,7 @@ pub fn run(args: &[String], seed: u64, count: u64, w: &mut dyn Write) {
         }),
         "fxcrash-child" => crate::fxcrash::child_main(args),
         "fxcrash" => {
-            let thorough = args.iter().any(|a| a == "--thorough");
+            let thorough = args.iter().any(|a| a == "--thorough") || count >= 6;
             let mut r = Rng::new(seed ^ 0xc4a5_4000);
             for i in 0..count {
                 let mut cr = r.fork();
